@@ -435,7 +435,7 @@ Definition unshared (s : state) (xs : list nat) : Prop :=
   forall L x y, In x xs -> In y xs -> In x (lay s L) -> In y (lay s L) -> x = y.
 
 Definition enum_resize_ok (s : state) (e : nat) : Prop :=
-  (forall x, In x (erefs s e) -> attached s x -> resize_ok s x) /\ unshared s (erefs s e).
+  (forall x, In x (erefs s e) -> resize_ok s x) /\ unshared s (erefs s e).
 
 Definition ok_op (s : state) (o : op) : Prop :=
   match o with
@@ -1785,4 +1785,318 @@ Proof.
     + apply (a_vals s H).
   - apply InvA_set_rel; [exact H|apply Perr; discriminate].
   - apply InvA_set_rel; [exact H|apply Perr; discriminate].
+Qed.
+
+(* --- enum size changes: all referencing signals at once --------------------------------------- *)
+
+Definition bump (s : state) (D : list nat) (n' : Z) : nat -> Z := fun y => if memb y D then n' else sz s y.
+
+Lemma ok_all_ext : forall s p len len', (forall y, len' y = len y) -> ok_all s p len -> ok_all s p len'.
+Proof. intros s p len len' E H L. eapply ok_ext; [|apply (H L)]. intros t _. split; [reflexivity|apply E]. Qed.
+
+Lemma memb_app : forall x l1 l2, memb x (l1 ++ l2) = memb x l1 || memb x l2.
+Proof. intros. unfold memb. apply existsb_app. Qed.
+
+Lemma refs_loop : forall s a old n', InvA s -> a <> 0 -> n' = old + a -> 1 <= n' ->
+  forall R D p,
+  (forall y, In y (D ++ R) -> sz s y = old) ->
+  ok_all s p (bump s D n') ->
+  NoDup (D ++ R) -> unshared s (D ++ R) ->
+  (forall x, In x R -> resize_ok s x) ->
+  exists p', fst (refs_modify (set_rel s p) R a) = set_rel s p'
+    /\ (snd (refs_modify (set_rel s p) R a) = VOk -> ok_all s p' (bump s (D ++ R) n'))
+    /\ (snd (refs_modify (set_rel s p) R a) <> VOk ->
+        0 < a /\ exists D', (forall y, In y D' -> In y (D ++ R)) /\ ok_all s p' (bump s D' n')).
+Proof.
+  intros s a old n' H Ha En Hn'. induction R as [|r R' IH]; intros D p Hsz Hcur Hnd Hun Hres.
+  - cbn [refs_modify fst snd]. exists p. split; [reflexivity|]. split; [intros _; rewrite app_nil_r; exact Hcur|intros C; congruence].
+  - cbn [refs_modify].
+    assert (Hr : sz s r = old) by (apply Hsz; apply in_or_app; right; left; reflexivity).
+    assert (HrD : ~ In r D).
+    { intros Hin. apply NoDup_remove_2 in Hnd. apply Hnd. apply in_or_app. left. exact Hin. }
+    assert (Hagree : forall L, In r (lay s L) -> forall t, In t (lay s L) -> bump s D n' t = sz s t).
+    { intros L HL t Ht. unfold bump. destruct (memb t D) eqn:Em; [|reflexivity]. apply memb_In in Em.
+      assert (t = r).
+      { apply (Hun L t r); [apply in_or_app; left; exact Em|apply in_or_app; right; left; reflexivity|exact Ht|exact HL]. }
+      subst t. contradiction. }
+    destruct (sig_modify_post s r a p (bump s D n') H Hcur Hagree ltac:(lia) (Hres r (or_introl eq_refl))) as [A B].
+    destruct (sig_modify_size (set_rel s p) r a) as [s1 e]. cbn [fst snd] in A, B.
+    destruct A as [p1 [-> [Aok [Aerr _]]]].
+    destruct e.
+    + specialize (Aok eq_refl).
+      assert (Hcur' : ok_all s p1 (bump s (D ++ [r]) n')).
+      { eapply ok_all_ext; [|exact Aok]. intros y. unfold bump, upd. rewrite memb_app.
+        unfold memb at 2. cbn [existsb].
+        destruct (Nat.eqb_spec y r) as [->|NE].
+        - rewrite orb_true_r. lia.
+        - rewrite !orb_false_r. reflexivity. }
+      destruct (IH (D ++ [r]) p1) as [p' [E1 [E2 E3]]].
+      * intros y Hy. apply Hsz. rewrite <- app_assoc in Hy. exact Hy.
+      * exact Hcur'.
+      * rewrite <- app_assoc. exact Hnd.
+      * rewrite <- app_assoc. exact Hun.
+      * intros x Hx. apply Hres. right; exact Hx.
+      * exists p'. split; [exact E1|]. split; [intros E; rewrite <- app_assoc in E2; apply E2; exact E|].
+        intros C. destruct (E3 C) as [Hpos [D' [Hin HD']]]. split; [exact Hpos|]. exists D'. split; [|exact HD'].
+        intros y Hy. specialize (Hin y Hy). rewrite <- app_assoc in Hin. exact Hin.
+    + exists p1. split; [reflexivity|]. split; [discriminate|]. intros _.
+      split; [|exists D; split; [intros y Hy; apply in_or_app; left; exact Hy|apply Aerr; discriminate]].
+      destruct (Z.lt_trichotomy a 0) as [Hneg|[E0|Hpos]]; [specialize (B Hneg); discriminate|congruence|exact Hpos].
+    + exists p1. split; [reflexivity|]. split; [discriminate|]. intros _.
+      split; [|exists D; split; [intros y Hy; apply in_or_app; left; exact Hy|apply Aerr; discriminate]].
+      destruct (Z.lt_trichotomy a 0) as [Hneg|[E0|Hpos]]; [specialize (B Hneg); discriminate|congruence|exact Hpos].
+Qed.
+
+(* the old sizes are fine for a partially processed growth *)
+Lemma bump_old : forall s p D n', InvA s -> (forall y, In y D -> sz s y <= n') -> ok_all s p (bump s D n') -> ok_all s p (sz s).
+Proof.
+  intros s p D n' H Hle Hok L. eapply ok_len_le; [|apply (Hok L)]. intros t Ht. unfold bump.
+  pose proof (a_size s H t). destruct (memb t D) eqn:E; [apply memb_In in E; specialize (Hle t E); lia|lia].
+Qed.
+
+(* SignalEnum.modifySize from a well-formed state *)
+Lemma enum_modify_post : forall s e a, InvA s -> 1 <= esize s e + a -> enum_resize_ok s e ->
+  exists p, fst (enum_modify_size s e a) = set_rel s p
+    /\ (snd (enum_modify_size s e a) = VOk -> ok_all s p (bump s (erefs s e) (esize s e + a)))
+    /\ (snd (enum_modify_size s e a) <> VOk -> ok_all s p (sz s)).
+Proof.
+  intros s e a H Hnew [Hres Hun]. unfold enum_modify_size.
+  assert (Hszr : forall y, In y (erefs s e) -> sz s y = esize s e).
+  { intros y Hy. destruct (a_refs2 s H y e Hy) as [K _]. unfold sz. rewrite K. reflexivity. }
+  destruct (Z.eqb_spec a 0) as [->|Ha].
+  - cbn [fst snd]. exists (rel s). split; [apply set_rel_id|]. split; [|intros _; exact (a_ok s H)].
+    intros _. eapply ok_all_ext; [|exact (a_ok s H)]. intros y. unfold bump.
+    destruct (memb y (erefs s e)) eqn:E; [apply memb_In in E; rewrite (Hszr y E); lia|reflexivity].
+  - destruct (refs_loop s a (esize s e) (esize s e + a) H Ha eq_refl Hnew (erefs s e) [] (rel s)) as [p' [E1 [E2 E3]]].
+    + intros y Hy. apply Hszr. exact Hy.
+    + eapply ok_all_ext; [|exact (a_ok s H)]. intros y. reflexivity.
+    + apply (a_refs_nd s H).
+    + exact Hun.
+    + exact Hres.
+    + rewrite <- (set_rel_id s) in *. exists p'. split; [exact E1|]. split; [exact E2|].
+      intros C. destruct (E3 C) as [Hpos [D' [Hin HD']]].
+      eapply bump_old; [exact H| |exact HD']. intros y Hy. rewrite (Hszr y (Hin y Hy)). lia.
+Qed.
+
+(* the enum e gets a new max index / min size: every referencing signal changes size at once *)
+Lemma InvA_enum_update : forall s s' e mx mn,
+  InvA s -> 0 <= mx ->
+  nsig s' = nsig s -> glsize s' = glsize s -> gbytes s' = gbytes s -> nmsg s' = nmsg s ->
+  glay s' = glay s -> ugroups s' = ugroups s -> kind s' = kind s -> erefs s' = erefs s ->
+  (forall e', emax s' e' = upd (emax s) e mx e') -> (forall e', emin s' e' = upd (emin s) e mn e') ->
+  ok_all s (rel s') (bump s (erefs s e) (esize_of mn mx)) ->
+  (forall e' v, In v (evals s' e') -> vpar s' v = Some e' /\ vidx s' v <= emax s' e' /\ (v < nval s')%nat) ->
+  InvA s'.
+Proof.
+  intros s s' e mx mn H Hmx En Els Egb Enm Egl Eug Ek Erf Emx Emn Hok Hvals.
+  assert (Hsz : forall y, sz s' y = match kind s y with KEnum e' => if Nat.eqb e' e then esize_of mn mx else sz s y | _ => sz s y end).
+  { intros y. unfold sz, esize. rewrite Ek. destruct (kind s y) as [n|e'|c g]; try reflexivity.
+    rewrite Emx, Emn. unfold upd. destruct (Nat.eqb_spec e' e); reflexivity. }
+  eapply (InvA_resized s s' (bump s (erefs s e) (esize_of mn mx)) H); try assumption.
+  - intros L y Hy. rewrite Hsz. unfold bump. pose proof (a_alloc s H L y Hy) as Hlt.
+    destruct (kind s y) as [n|e'|c g] eqn:Eky.
+    + destruct (memb y (erefs s e)) eqn:Em; [|reflexivity]. apply memb_In in Em.
+      destruct (a_refs2 s H y e Em) as [K _]. congruence.
+    + destruct (Nat.eqb_spec e' e) as [->|NE].
+      * assert (Em : memb y (erefs s e) = true) by (apply memb_In; apply (a_refs s H); assumption). rewrite Em. reflexivity.
+      * destruct (memb y (erefs s e)) eqn:Em; [|reflexivity]. apply memb_In in Em.
+        destruct (a_refs2 s H y e Em) as [K _]. congruence.
+    + destruct (memb y (erefs s e)) eqn:Em; [|reflexivity]. apply memb_In in Em.
+      destruct (a_refs2 s H y e Em) as [K _]. congruence.
+  - intros u. unfold mux_gsize. rewrite Ek. reflexivity.
+  - intros y. rewrite Hsz. pose proof (a_size s H y) as Hy. destruct (kind s y) as [n|e'|c g]; try exact Hy.
+    destruct (Nat.eqb e' e); [apply esize_of_pos; exact Hmx|exact Hy].
+  - intros e'. rewrite Emx. unfold upd. destruct (Nat.eqb e' e); [exact Hmx|apply (a_emax s H)].
+  - intros y e'. rewrite Ek, Erf. apply (a_refs s H).
+  - intros y e'. rewrite Ek, Erf. apply (a_refs2 s H).
+  - intros e'. rewrite Erf. apply (a_refs_nd s H).
+Qed.
+
+Lemma bump_same : forall s e, InvA s -> forall y, bump s (erefs s e) (esize s e) y = sz s y.
+Proof.
+  intros s e H y. unfold bump. destruct (memb y (erefs s e)) eqn:E; [|reflexivity]. apply memb_In in E.
+  destruct (a_refs2 s H y e E) as [K _]. unfold sz. rewrite K. reflexivity.
+Qed.
+
+(* a fresh enum value *)
+Lemma InvA_alloc_val : forall s idx, InvA s ->
+  InvA (set_nval (set_vpar (set_vidx s (upd (vidx s) (nval s) idx)) (upd (vpar s) (nval s) None)) (S (nval s))).
+Proof.
+  intros s idx H.
+  eapply (InvA_resized s _ (sz s) H); try reflexivity.
+  - exact (a_ok s H).
+  - apply (a_size s H).
+  - apply (a_emax s H).
+  - apply (a_refs s H).
+  - apply (a_refs2 s H).
+  - apply (a_refs_nd s H).
+  - intros e v Hv. cbn in Hv. destruct (a_vals s H e v Hv) as (A & B & C). cbn.
+    rewrite !upd_other by lia. repeat split; try assumption. lia.
+Qed.
+
+Lemma max_index_ge : forall s vs acc, acc <= fold_left (fun a v => Z.max a (vidx s v)) vs acc
+  /\ forall v, In v vs -> vidx s v <= fold_left (fun a v => Z.max a (vidx s v)) vs acc.
+Proof.
+  intros s vs. induction vs as [|a r IH]; intros acc; cbn [fold_left].
+  - split; [lia|intros v []].
+  - destruct (IH (Z.max acc (vidx s a))) as [A B]. split; [lia|].
+    intros v [<-|Hv]; [lia|apply B; exact Hv].
+Qed.
+
+Lemma max_index_le : forall s vs acc bound, acc <= bound -> (forall v, In v vs -> vidx s v <= bound) ->
+  fold_left (fun a v => Z.max a (vidx s v)) vs acc <= bound.
+Proof.
+  intros s vs. induction vs as [|a r IH]; intros acc bound Ha Hb; cbn [fold_left]; [exact Ha|].
+  apply IH; [pose proof (Hb a (or_introl eq_refl)); lia|intros v Hv; apply Hb; right; exact Hv].
+Qed.
+
+Lemma inv_add_value : forall s e idx, InvA s -> ok_op s (OAddValue e idx) -> InvA (fst (step_add_value s e idx)).
+Proof.
+  intros s e idx H Hop. cbn [ok_op] in Hop. unfold step_add_value.
+  set (v := nval s).
+  set (s0 := set_nval (set_vpar (set_vidx s (upd (vidx s) v idx)) (upd (vpar s) v None)) (S v)).
+  assert (H0 : InvA s0) by (apply InvA_alloc_val; exact H).
+  destruct (verify_value_index s0 e idx) eqn:Ev; try exact H0.
+  assert (Hdup : ~ In idx (eidx s e)).
+  { unfold verify_value_index in Ev. change (eidx s0 e) with (eidx s e) in Ev.
+    destruct (membZ idx (eidx s e)) eqn:Em; [discriminate|]. intros Hin. apply membZ_In in Hin. congruence. }
+  change (emax s0 e) with (emax s e). change (emin s0 e) with (emin s e).
+  assert (Hvals_final : forall mx, emax s e <= mx -> idx <= mx ->
+    forall e' v', In v' (if Nat.eqb e' e then ladd v (evals s e) else evals s e') ->
+      upd (vpar s0) v (Some e) v' = Some e' /\ vidx s0 v' <= upd (emax s) e mx e' /\ (v' < S v)%nat).
+  { intros mx Hmx Hidx e' v' Hv'. unfold upd at 2. destruct (Nat.eqb_spec e' e) as [->|NE].
+    - apply ladd_In in Hv'. destruct Hv' as [->|Hv'].
+      + rewrite upd_same. cbn. rewrite upd_same. split; [reflexivity|split; [exact Hidx|lia]].
+      + destruct (a_vals s H e v' Hv') as (A & B & C). unfold v in *.
+        rewrite upd_other by lia. cbn. rewrite !upd_other by lia. split; [exact A|split; [lia|lia]].
+    - destruct (a_vals s H e' v' Hv') as (A & B & C). unfold v in *.
+      rewrite upd_other by lia. cbn. rewrite !upd_other by lia. split; [exact A|split; [lia|lia]]. }
+  destruct (Z.ltb_spec (emax s e) idx) as [Hlt|Hge].
+  - (* the max index rises *)
+    set (amt := esize_of (emin s e) idx - esize s0 e).
+    assert (Hnew : 1 <= esize s0 e + amt).
+    { unfold amt. pose proof (esize_of_pos (emin s e) idx ltac:(pose proof (a_emax s H e); lia)). lia. }
+    assert (Hpost : exists p, fst (enum_modify_size s0 e amt) = set_rel s0 p
+              /\ (snd (enum_modify_size s0 e amt) = VOk -> ok_all s0 p (bump s0 (erefs s0 e) (esize s0 e + amt)))
+              /\ (snd (enum_modify_size s0 e amt) <> VOk -> ok_all s0 p (sz s0))).
+    { destruct (Z.eq_dec amt 0) as [E0|NE0].
+      - rewrite E0. unfold enum_modify_size. cbn [Z.eqb fst snd]. exists (rel s0). split; [apply set_rel_id|].
+        split; [|intros _; exact (a_ok s0 H0)]. intros _. eapply ok_all_ext; [|exact (a_ok s0 H0)].
+        intros y. replace (esize s0 e + 0) with (esize s0 e) by lia. apply bump_same. exact H0.
+      - apply enum_modify_post; [exact H0|exact Hnew|]. apply Hop; [exact Hlt|]. unfold amt in NE0.
+        change (esize s0 e) with (esize s e) in NE0. lia. }
+    destruct (enum_modify_size s0 e amt) as [s1 r]. cbn [fst snd] in Hpost.
+    destruct Hpost as [p [-> [Pok Perr]]].
+    destruct r; cbn [fst].
+    + specialize (Pok eq_refl). change (emax (set_rel s0 p) e) with (emax s e).
+      destruct (Z.ltb_spec (emax s e) idx); [|lia].
+      assert (Hmx0 : 0 <= idx) by (pose proof (a_emax s H e); lia).
+      assert (Hemn : forall e', emin s0 e' = upd (emin s0) e (emin s e) e').
+      { intros e'. unfold upd. destruct (Nat.eqb_spec e' e) as [E|]; [rewrite E|]; reflexivity. }
+      replace (esize s0 e + amt) with (esize_of (emin s e) idx) in Pok by (unfold amt; lia).
+      eapply (InvA_enum_update s0 _ e idx (emin s e) H0 Hmx0); try reflexivity; try exact Hemn; try exact Pok.
+      intros e' v' Hv'. cbn in Hv'. cbn.
+      apply (Hvals_final idx ltac:(lia) ltac:(lia) e' v').
+      unfold upd in Hv'. destruct (Nat.eqb e' e); exact Hv'.
+    + apply InvA_set_rel; [exact H0|apply Perr; discriminate].
+    + apply InvA_set_rel; [exact H0|apply Perr; discriminate].
+  - (* the size does not change *)
+    cbn [fst]. change (emax s0 e) with (emax s e). destruct (Z.ltb_spec (emax s e) idx); [lia|].
+    eapply (InvA_resized s0 _ (sz s0) H0); try reflexivity.
+    + exact (a_ok s0 H0).
+    + apply (a_size s0 H0).
+    + apply (a_emax s0 H0).
+    + apply (a_refs s0 H0).
+    + apply (a_refs2 s0 H0).
+    + apply (a_refs_nd s0 H0).
+    + intros e' v' Hv'. cbn in Hv'. cbn.
+      pose proof (Hvals_final (emax s e) ltac:(lia) ltac:(lia) e' v') as F.
+      assert (Eu : upd (emax s) e (emax s e) e' = emax s e') by (unfold upd; destruct (Nat.eqb_spec e' e) as [->|]; reflexivity).
+      rewrite Eu in F. apply F. unfold upd in Hv'. destruct (Nat.eqb e' e); exact Hv'.
+Qed.
+
+Lemma ok_all_bump_le : forall s e n', InvA s -> 1 <= n' ->
+  (forall x, In x (erefs s e) -> attached s x -> n' <= sz s x) ->
+  ok_all s (rel s) (bump s (erefs s e) n').
+Proof.
+  intros s e n' H Hn Hle L. eapply ok_len_le; [|apply (a_ok s H L)]. intros t Ht. unfold bump.
+  pose proof (a_size s H t). destruct (memb t (erefs s e)) eqn:E; [|lia].
+  apply memb_In in E. specialize (Hle t E (ex_intro _ L Ht)). lia.
+Qed.
+
+Lemma inv_set_min_size : forall s e n, InvA s -> ok_op s (OSetMinSize e n) ->
+  InvA (set_emin s (upd (emin s) e n)).
+Proof.
+  intros s e n H Hop. cbn [ok_op] in Hop.
+  eapply (InvA_enum_update s _ e (emax s e) n H (a_emax s H e)); try reflexivity.
+  - intros e'. cbn. unfold upd. destruct (Nat.eqb_spec e' e) as [E|]; [rewrite E|]; reflexivity.
+  - cbn. apply ok_all_bump_le; [exact H|apply esize_of_pos; apply (a_emax s H)|].
+    intros x Hx Ha. destruct (a_refs2 s H x e Hx) as [K _]. unfold sz. rewrite K. apply (Hop x Hx Ha).
+  - intros e' v Hv. cbn in Hv. cbn. apply (a_vals s H). exact Hv.
+Qed.
+
+Lemma inv_remove_all_values : forall s e, InvA s -> InvA (fst (step_remove_all_values s e)).
+Proof.
+  intros s e H. unfold step_remove_all_values. cbn [fst].
+  assert (Hemn : forall e', emin s e' = upd (emin s) e (emin s e) e').
+  { intros e'. unfold upd. destruct (Nat.eqb_spec e' e) as [E|]; [rewrite E|]; reflexivity. }
+  eapply (InvA_enum_update s _ e 0 (emin s e) H ltac:(lia)); try reflexivity; try exact Hemn.
+  - cbn. apply ok_all_bump_le; [exact H|apply esize_of_pos; lia|].
+    intros x Hx _. destruct (a_refs2 s H x e Hx) as [K _]. unfold sz. rewrite K. unfold esize.
+    apply esize_of_mono; [lia|apply (a_emax s H)].
+  - intros e' v Hv. cbn in Hv. cbn. unfold upd in Hv. destruct (Nat.eqb_spec e' e) as [->|NE]; [destruct Hv|].
+    destruct (a_vals s H e' v Hv) as (A & B & C).
+    assert (Hm : memb v (evals s e) = false).
+    { destruct (memb v (evals s e)) eqn:Em; [|reflexivity]. apply memb_In in Em.
+      destruct (a_vals s H e v Em) as (A' & _). congruence. }
+    rewrite Hm. unfold upd. destruct (Nat.eqb_spec e' e); [congruence|]. repeat split; assumption.
+Qed.
+
+Lemma max_index_bound : forall s vs bound, 0 <= bound -> (forall v, In v vs -> vidx s v <= bound) -> 0 <= max_index s vs <= bound.
+Proof.
+  intros s vs bound Hb Hv. unfold max_index. split.
+  - apply (proj1 (max_index_ge s vs 0)).
+  - apply max_index_le; assumption.
+Qed.
+
+Lemma inv_remove_value : forall s e v, InvA s -> InvA (fst (step_remove_value s e v)).
+Proof.
+  intros s e v H. unfold step_remove_value. destruct (negb (memb v (evals s e))) eqn:Em; [exact H|]. cbn [fst].
+  apply negb_false_iff in Em. apply memb_In in Em.
+  assert (Hvals : forall mx, (forall v', In v' (lrem v (evals s e)) -> vidx s v' <= mx) ->
+     forall e' v', In v' (upd (evals s) e (lrem v (evals s e)) e') ->
+       upd (vpar s) v None v' = Some e' /\ vidx s v' <= upd (emax s) e mx e' /\ (v' < nval s)%nat).
+  { intros mx Hmx e' v' Hv'. unfold upd in Hv'. unfold upd at 2. destruct (Nat.eqb_spec e' e) as [->|NE].
+    - pose proof (Hmx v' Hv') as Hb. apply lrem_In in Hv'. destruct Hv' as [Hv' NEv].
+      destruct (a_vals s H e v' Hv') as (A & B & C). rewrite upd_other by exact NEv. repeat split; assumption.
+    - destruct (a_vals s H e' v' Hv') as (A & B & C).
+      assert (NEv : v' <> v).
+      { intros ->. destruct (a_vals s H e v Em) as (A' & _). congruence. }
+      rewrite upd_other by exact NEv. repeat split; assumption. }
+  assert (Hold : forall v', In v' (lrem v (evals s e)) -> vidx s v' <= emax s e).
+  { intros v' Hv'. apply lrem_In in Hv'. apply (a_vals s H e v'). tauto. }
+  destruct (vidx s v =? emax s e).
+  - (* the max index is recomputed *)
+    set (mx := max_index s (lrem v (evals s e))).
+    assert (Hmx : 0 <= mx <= emax s e).
+    { unfold mx. apply max_index_bound; [apply (a_emax s H)|exact Hold]. }
+    assert (Hemn : forall e', emin s e' = upd (emin s) e (emin s e) e').
+    { intros e'. unfold upd. destruct (Nat.eqb_spec e' e) as [E|]; [rewrite E|]; reflexivity. }
+    eapply (InvA_enum_update s _ e mx (emin s e) H ltac:(lia)); try reflexivity; try exact Hemn.
+    + intros e'. cbn. rewrite upd_same. reflexivity.
+    + cbn. apply ok_all_bump_le; [exact H|apply esize_of_pos; lia|].
+      intros x Hx _. destruct (a_refs2 s H x e Hx) as [K _]. unfold sz. rewrite K. unfold esize.
+      apply esize_of_mono; lia.
+    + intros e' v' Hv'. cbn in Hv'. cbn. rewrite upd_same. fold mx. apply Hvals; [|exact Hv'].
+      intros v'' Hv''. unfold mx. apply (proj2 (max_index_ge _ _ 0)). exact Hv''.
+  - eapply (InvA_resized s _ (sz s) H); try reflexivity.
+    + exact (a_ok s H).
+    + apply (a_size s H).
+    + apply (a_emax s H).
+    + apply (a_refs s H).
+    + apply (a_refs2 s H).
+    + apply (a_refs_nd s H).
+    + intros e' v' Hv'. cbn in Hv'. cbn. pose proof (Hvals (emax s e) Hold e' v' Hv') as F.
+      assert (Eu : upd (emax s) e (emax s e) e' = emax s e') by (unfold upd; destruct (Nat.eqb_spec e' e) as [->|]; reflexivity).
+      rewrite Eu in F. exact F.
 Qed.
